@@ -4,7 +4,7 @@
 From Coq Require Import NArith List Bool Lia ZArith.
 From Coq Require Import ZifyN ZifyBool ZifyNat.
 From DV Require Import Base.Outcome Base.Bytes Base.Names Base.PName C02.Gen C02.Model
-  C02.ProofsBasic C02.ProofsRun C02.ProofsName C02.ProofsComp C02.ProofsStatic C02.ProofsHash C02.ProofsTop
+  C02.ProofsBasic C02.ProofsClone C02.ProofsRun C02.ProofsName C02.ProofsComp C02.ProofsStatic C02.ProofsHash C02.ProofsTop
   C02.ProofsLayout C02.ProofsRead C02.ProofsWrite.
 Import ListNotations.
 Local Open Scope N_scope.
@@ -370,9 +370,10 @@ Proof.
     + exists bs. exact HL.
     + unfold alive in AL. congruence.
   - destruct (N.eqb_spec (b_sec s) 3) as [E0|E0]; [|injection H as <- <-; exists bs; exact HL].
-    destruct (mb_push_cases c s (compose_opt c oh opts) HB (compose_opt_spec c oh opts))
+    destruct (mb_push_cases c s (opt_writer c oh opts) HB (opt_writer_spec c oh opts))
       as [(w' & Ef & E & X & TB' & SI' & _ & Lc)|[(e' & E)|(x & E & D)]]; rewrite E in H; cbn [fst snd] in H; injection H as <- <-.
-    + destruct (compose_opt_ok c oh opts (b_w s) w' HW L12 Hwf Ef) as ((_ & _ & CI') & HR & _).
+    + pose proof Hwf as (Wu & Wv & Wf). apply (opt_writer_ok_is_setter c oh opts (b_w s) w' TB SI Wu Wv Wf) in Ef.
+      destruct (compose_opt_ok c oh opts (b_w s) w' HW L12 Hwf Ef) as ((_ & _ & CI') & HR & _).
       eexists. cbn [acc_step]. apply Layout_set_hdr. eapply Layout_push_r; eauto. lia.
     + exists bs. apply Layout_set_hdr. exact HL.
     + unfold alive in AL. congruence.
